@@ -332,6 +332,8 @@ def header(timeout_s, solver="z3"):
 
 def check(lines, asserts, solver="z3", timeout=20, get_model=True):
     s = header(timeout, solver) + list(lines) + [f"(assert {a})" for a in asserts]
+    if lines and lines[0] == "; QF_BV":
+        get_model = False   # bit-vector models are not parsed; status only
     s.append("(check-sat)")
     if get_model:
         s.append("(get-model)")
